@@ -431,6 +431,9 @@ def r4_comparisons(prog, rep: Report, ss: Cls):
              "issuperset": ("b", lambda a, b: b)}
     DUNDER = {ast.LtE: "__le__", ast.Lt: "__lt__", ast.Eq: "__eq__", ast.NotEq: "__ne__", ast.GtE: "__ge__", ast.Gt: "__gt__"}
 
+    free_atoms: Dict[str, bool] = {}
+    free_seen: List[str] = []
+
     def expand(fn: Func, A: str, B: str, a: bool, b: bool, depth: int) -> bool:
         """truth value of method ``fn`` called as fn(A, B) given a = (A<=B), b = (B<=A); A, B in {'A','B'}"""
         if depth > 6:
@@ -453,6 +456,22 @@ def r4_comparisons(prog, rep: Report, ss: Cls):
             if isinstance(e, ast.Compare):
                 left = e.left
                 res = True
+                if len(e.ops) == 1 and isinstance(e.ops[0], (ast.Is, ast.IsNot)) and isinstance(left, ast.Name) \
+                        and isinstance(e.comparators[0], ast.Name) and left.id in env and e.comparators[0].id in env:
+                    same = env[left.id] == env[e.comparators[0].id]
+                    if same:
+                        return isinstance(e.ops[0], ast.Is)
+                    # distinct operands may still be the same object only when both inclusions hold
+                    key = f"{A} is {B}"
+                    if not (a and b):
+                        return isinstance(e.ops[0], ast.IsNot)
+                    return _free(key) == isinstance(e.ops[0], ast.Is)
+                if not all(isinstance(x, ast.Name) and x.id in env for x in [left] + list(e.comparators)):
+                    # not a membership statement (e.g. a comparison of lengths): a free atom
+                    txt = src(e)
+                    for nm, role in env.items():
+                        txt = txt.replace(nm, role)
+                    return _free(txt)
                 for op, right in zip(e.ops, e.comparators):
                     if not (isinstance(left, ast.Name) and isinstance(right, ast.Name) and left.id in env and right.id in env):
                         raise NotAFormula(f"operand of {src(e)}")
@@ -474,6 +493,11 @@ def r4_comparisons(prog, rep: Report, ss: Cls):
 
         return ev(rs[0].value)
 
+    def _free(key: str) -> bool:
+        if key not in free_seen:
+            free_seen.append(key)
+        return free_atoms.get(key, False)
+
     for name, (text, spec) in specs.items():
         f = prog.resolve(ss, name)
         if f is None or f.cls is not ss:
@@ -484,9 +508,22 @@ def r4_comparisons(prog, rep: Report, ss: Cls):
         try:
             for a in (False, True):
                 for b in (False, True):
+                    free_seen.clear()
+                    free_atoms.clear()
                     got = expand(f, "A", "B", a, b, 0)
-                    rows.append({"A<=B": a, "B<=A": b, "returns": got, "definition": spec(a, b)})
-                    good = good and got == spec(a, b)
+                    atoms = list(free_seen)
+                    # every assignment of the free atoms (sub-expressions that are not membership statements)
+                    import itertools as _it
+                    for vals in _it.product((False, True), repeat=len(atoms)):
+                        free_atoms.clear()
+                        free_atoms.update(dict(zip(atoms, vals)))
+                        got = expand(f, "A", "B", a, b, 0)
+                        row = {"A<=B": a, "B<=A": b, "returns": got, "definition": spec(a, b)}
+                        if atoms:
+                            row["with"] = dict(zip(atoms, vals))
+                        rows.append(row)
+                        good = good and got == spec(a, b)
+            free_atoms.clear()
         except NotAFormula as e:
             rep.unrec("C10.R4", f, name, f"cannot expand to a formula over A<=B, B<=A: {e}")
             continue
